@@ -82,5 +82,6 @@ for e in all_entries():
     OBLIGATIONS.append(entry_obl("rt_der", rt_der, e))
     OBLIGATIONS.append(entry_obl("rt_cer", rt_cer, e))
 OBLIGATIONS.append(Obl("long_strings", long_strings, {"kind": I(0, 5), "size": I(0, 3), "x": I(0, 127), "pos": I(0, 2), "der": B},
-                       shards=[{"kind": C(k), "der": C(d)} for k in range(6) for d in (False, True)], budget=120, per_path=60,
+                       shards=[{"kind": C(k), "der": C(d)} for k in range(4) for d in (False, True)] +
+                              [{"kind": C(k), "der": C(d), "size": C(z), "x": C(0), "pos": C(0)} for k in (4, 5) for d in (False, True) for z in range(4)], budget=120, per_path=60,
                        doc="strings of 999/1000/1001/2001 octets through DER and CER and every wider decoder"))
